@@ -70,3 +70,43 @@ def replay(unit, f, o, src):
         return dict(reproduced=False, reason='counterexample not expressible through the public API')
     ok, out = run_program_text(text, [])
     return dict(reproduced=bool(ok), program=text, output=out[-2000:])
+
+
+# ----------------------------------------------------------------------------- counterexample -> inputs
+def trace_vals(o, fn):
+    """last value assigned to each variable of harness function `fn` in the verifier's counterexample"""
+    vals = {}
+    for f, lhs, val in o.get('trace', []):
+        if f == fn and val is not None:
+            vals[lhs] = val
+    return vals
+
+
+def to_int(v, default=0):
+    if v is None:
+        return default
+    s = str(v).strip()
+    if s in ('TRUE', 'True'):
+        return 1
+    if s in ('FALSE', 'False'):
+        return 0
+    if s.startswith("'") and s.endswith("'") and len(s) >= 3:
+        body = s[1:-1]
+        if body.startswith('\\') and len(body) > 1:
+            try:
+                return int(body[1:], 8)
+            except ValueError:
+                return {'n': 10, 't': 9, 'r': 13, '0': 0, '\\': 92, "'": 39}.get(body[1], ord(body[1]))
+        return ord(body[0])
+    import re as _re
+    m = _re.match(r'^(-?\d+)', s)
+    return int(m.group(1)) if m else default
+
+
+TWIN_HEAD = '''// vx-witness: mode=run
+// native replay of a CBMC counterexample against the real header: exit 1 = the postcondition is violated natively
+#include <ctpg/ctpg.hpp>
+#include <cstdio>
+#include <cstdint>
+using namespace ctpg;
+'''
